@@ -1,8 +1,9 @@
 """C13 — standby converges to the active node's session table."""
 import verif as V
+import locks
 
 PROP = "C13"
-SPEC = "Bng.Spec.C13"
+SPEC = ["Bng.Spec.C13"] + ["Bng.Spec.C13Locks"]
 MON = ["fullsync-differs", "order", "diverged", "stale-attach"]
 COMPS = [
     V.Component("hasync", monitors=MON),
@@ -33,11 +34,12 @@ ASSUME = [
     "a session stays in the scope of D43 until a snapshot is taken with nothing about it in flight (excl_D43_resets); "
     "for a session that is changed continuously converges_partial says nothing in the meantime",
 ]
+ASSUME = ASSUME + [locks.ASSUME]
 
 
 def run(tier, seed):
-    return V.standard_check(PROP, SPEC, COMPS, LEVEL, ASSUME, tier, seed)
+    return V.standard_check(PROP, SPEC, COMPS, LEVEL, ASSUME, tier, seed, pre=locks.with_locks())
 
 
 def replay(path):
-    return V.replay(PROP, COMPS, path, SPEC)
+    return V.replay(PROP, COMPS, path, SPEC, pre=locks.with_locks())
